@@ -59,6 +59,10 @@ func run(col *core.Collector, prop, tier, variant string, seed uint64, shard, ns
 			seq.RunProperty(col, prop, tier, seed, shard, nshards, replayDir)
 		}
 		conc.Run(col, prop, tier, variant, seed, shard, nshards, replayDir, out)
+	case "C08":
+		conc.RunC08(col, tier, variant, seed, shard, nshards, replayDir, out)
+	case "C09":
+		conc.RunC09(col, tier, variant, seed, shard, nshards, replayDir, out)
 	case "C02", "C04", "C05", "C06", "C14":
 		conc.Run(col, prop, tier, variant, seed, shard, nshards, replayDir, out)
 	case "C19":
